@@ -243,6 +243,7 @@ class World(object):
         self.rest_log = []
         self.boots = 0
         bootstrap.FILE_CLOCK.n = 0
+        bootstrap.WallOffset.v = 0.0
         bootstrap.FILE_CLOCK.tick = not self.cfg.get("coarse_clock", False)
         self.boot()
 
@@ -451,6 +452,12 @@ class World(object):
         if target <= self.reactor.now:
             return False
         self.reactor.now = target
+        return True
+
+    def op_clockstep(self, delta):
+        """The wall clock is stepped by delta seconds (the reactor's time base is monotonic and stays)."""
+        bootstrap.WallOffset.v += float(delta)
+        self.note("clockstep", float(delta))
         return True
 
     def op_fire(self, i=0):
